@@ -337,6 +337,12 @@ func ruleRelease() check.Rule {
 							if n := resNode(b.Pkg.TypesInfo, nil, ch); n != "" && ra.released[n] {
 								signalled = true
 							}
+							// the goroutine body was moved into a helper: the channel is one of its parameters
+							if ce, cp := exprThroughInlining(m, b.Pkg, ch, b.Stack); ce != ch {
+								if n := resNode(cp.TypesInfo, nil, ce); n != "" && ra.released[n] {
+									signalled = true
+								}
+							}
 							// trusted: Close()/Stop() of an object of a type defined outside the repository closes (or stops
 							// feeding and closes) the channels that object exposes as fields (fsnotify.Watcher, time.Ticker …)
 							if sel, ok := ast.Unparen(ch).(*ast.SelectorExpr); ok {
